@@ -91,17 +91,20 @@ func SendMissingStz(lastSent int, s Sender, uaq *stanza.UnAckQueue) error {
 		return nil
 	}
 	uaq.RWMutex.Lock()
-	defer uaq.RWMutex.Unlock()
 	// Remove acknowledged stanzas from the queue. The Id of an element is its position among the stanzas sent
 	// on the session, which is what the server counts.
 	for len(uaq.Uslice) > 0 && uaq.Uslice[0].Id <= lastSent {
 		uaq.Pop()
 	}
-	if len(uaq.Uslice) <= 0 {
+	// Take out what is left: it is queued again, with new numbers, when it is sent again. The lock is not held
+	// while sending (Send and SendRaw take it to queue what they send).
+	toResend := uaq.PopN(len(uaq.Uslice))
+	uaq.RWMutex.Unlock()
+	if len(toResend) == 0 {
 		return nil
 	}
 	// Re-send non acknowledged stanzas
-	for _, elt := range uaq.PopN(len(uaq.Uslice)) {
+	for _, elt := range toResend {
 		eltStz := elt.(*stanza.UnAckedStz)
 		err := s.SendRaw(eltStz.Stz)
 		if err != nil {
